@@ -44,7 +44,8 @@ Print Assumptions C02_traversal_bound_seq.
    every incarnation [inc] (the ops between one reset and the next): the budget right after the
    reset is init_rlimit c (the configured T, or the 64 MiB default when T = 0), no handle
    survives, and the read sizes handed out within the incarnation sum to at most that value.
-   (The first incarnation is C02_traversal_bound_seq, stated for reset-free op lists.) *)
+   (The first incarnation is C02_traversal_bound_seq, stated for op lists free of Reset /
+   ResetReadLimit / Unread: [no_reset].) *)
 Theorem C02_traversal_bound_incarnations : forall c fx m pre inc post, 0 <= cfg_T c -> no_reset inc = true ->
   let st0 := fst (run c fx m (init_state c) (pre ++ [OReset true])) in
   let r := run c fx m st0 inc in
@@ -56,6 +57,31 @@ Theorem C02_traversal_bound_incarnations : forall c fx m pre inc post, 0 <= cfg_
     snd (run c fx m (init_state c) pre) ++ VNum (Ok (init_rlimit c)) :: snd r ++ snd (run c fx m (fst r) post).
 Proof. exact traversal_bound_incarnations. Qed.
 Print Assumptions C02_traversal_bound_incarnations.
+
+(* the application-controlled budget API: Message.ResetReadLimit (OResetLimit n: budget := n) and
+   Message.Unread (OUnread n: budget += n, uint64 wrap) - and Reset - raise the budget; the bound
+   is per budget epoch: for EVERY op list [pre ++ o :: inc] with o one of these calls and inc free
+   of them, the budget right after o is the value the call sets, it is never negative, and the
+   read sizes handed out in inc sum to at most that value.  (T bounds the total only when the
+   application does not call these; across k calls the total is bounded by the sum of the k+1
+   epoch budgets.) *)
+Theorem C02_traversal_bound_epochs : forall c fx m pre o inc,
+  0 <= cfg_T c -> is_reset o = true -> no_reset inc = true ->
+  let st_pre := fst (run c fx m (init_state c) pre) in
+  let st0 := fst (run c fx m (init_state c) (pre ++ [o])) in
+  let r := run c fx m st0 inc in
+  rs_rl st0 = budget_after c (rs_rl st_pre) o /\ 0 <= rs_rl st0 /\
+  0 <= rs_rl (fst r) /\
+  handed_sum inc (snd r) <= rs_rl st0 - rs_rl (fst r) /\
+  handed_sum inc (snd r) <= rs_rl st0.
+Proof. exact traversal_bound_epochs. Qed.
+Print Assumptions C02_traversal_bound_epochs.
+
+(* whatever is called, in any order, the budget never goes negative *)
+Theorem C02_budget_nonneg : forall c fx m ops st, 0 <= cfg_T c -> 0 <= rs_rl st ->
+  0 <= rs_rl (fst (run c fx m st ops)).
+Proof. exact run_nonneg. Qed.
+Print Assumptions C02_budget_nonneg.
 
 (* sensitivity: the variant that re-arms with the default whatever was configured ([OReset
    false], the seeded change C02-r4-1) hands out 16 bytes in an incarnation with T = 8 *)
